@@ -203,6 +203,41 @@ def cutoff_list(rng):
     return scripts[:4], control
 
 
+def script_witnesses(rng):
+    """witnesses that are PROGRAMS rather than data -> (alone, prefixes):
+    `alone` are (name, script) pairs that hold no key material at all (no lock
+    may accept them); `prefixes` are stack-neutral (name, script) pairs to put
+    in front of an honest witness (the verdict must stay what it was)."""
+    h = rng.choice((0, 0, 0, 1, 2, 3))
+    body = rng.choice((O('POP0') + O('TRUE'), O('TRUE'), b'',
+                       O('POP0') + O('POP0') + O('TRUE'),
+                       O('POP0') + O('TRUE') + O('RETURN'),
+                       O('DEPTH') + O('POP0') + O('POP0') + O('TRUE')))
+    key = rng.choice((b'r', b's', b'c', b'e', b'b', b'd', b'k', b'P', b'T',
+                      b'R', b'sa', b'x', b'X'))
+    preset = O('TRUE') + O('WRITE_CACHE') + bytes([len(key)]) + key + b'\x01'
+    flagop = O('SET_FLAG') + b'\x01\x09'
+    alone = [
+        ('defines-handle', isa.DEF(h, body)),
+        ('defines-handle+true', isa.DEF(h, body) + O('TRUE')),
+        ('defines-handle+junk', isa.DEF(h, body) + isa.push(rbytes(rng, 64))
+         + isa.push(rbytes(rng, 32))),
+        ('presets-register', preset),
+        ('presets-register+true', preset + O('TRUE')),
+        ('returns-early', O('TRUE') + O('RETURN')),
+        ('returns-inside-eval', isa.push(O('TRUE') + O('RETURN')) + O('EVAL')),
+        ('true-only', O('TRUE')),
+        ('two-trues', O('TRUE') + O('TRUE')),
+        ('empty', b''),
+    ]
+    prefixes = [
+        ('defines-handle', isa.DEF(h, body)),
+        ('presets-register', preset),
+        ('neutral', O('TRUE') + O('POP0')),
+    ]
+    return alone, prefixes
+
+
 def witness(rng, lock_info) -> bytes:
     """adversarial witness; lock_info: dict with the handles / keys / items
     the lock consumes."""
